@@ -87,7 +87,8 @@ def run(ctx, coq_ok):
         # (b) end to end
         p0, p1 = res["parts0"], res["parts1"]
         if p1 is None:
-            ctx.violation("fixed-does-not-render", "the fixed source no longer renders [%s]" % tpl, {"input": inp, "fixed": res["fixed"]}, attrs={"templater": tpl})
+            ctx.violation("template-fixed-does-not-render", "the fixed source no longer renders [%s]" % tpl, {"input": inp, "fixed": res["fixed"]},
+                          attrs={"templater": tpl, "jj01": jj01, "source_category_patch": src_patch, "lt02": lt02, "raw_block": "raw" in src})
             continue
         if jj01:
             p0 = [(k, norm_tag(r)) for k, r in p0]
